@@ -190,6 +190,10 @@ def byte_samples():
     s.append(('latin-1', 'a,\xe9\xff\r\n\xef\xbb\xbfb\r'))
     s.append(('latin-1', '\xef\xbb\xbfa,"\xe9\n\xff"\n'))
     s.append(('utf-8', '#é\n"a\r#b",😀\r'))
+    # a BOM in front of a comment line (the BOM must be dropped before the prefix is compared), single- and multi-character prefixes
+    s.append(('utf-8', '\ufeff#c,"\na,é\n#d'))
+    s.append(('latin-1', '\xef\xbb\xbf#c\na,\xe9\n'))
+    s.append(('utf-8', '\ufeff//c\n/,//\n//'))
     return s
 
 
@@ -198,7 +202,7 @@ def run_bytes(ns, res, tier, sample_idx, policies):
         data = text.encode(encoding)
         n = len(data)
         for policy in policies:
-            for comment in (None, '#'):
+            for comment in (None, '#') + (('//',) if '//' in text else ()):
                 for header in (False, True):
                     cfg = (policy, comment, header)
                     log0 = []
